@@ -41,6 +41,9 @@ func dnf(g *Graph, e ast.Expr, truth bool, whole func(ast.Expr) bool) [][]litera
 
 // whole(e) reports that some atom recognises the compound expression e as a unit: it is then a leaf.
 func dnfForm(f *bform, truth bool, whole func(ast.Expr) bool) [][]literal {
+	if f.op == "root" {
+		return dnfForm(f.kids[0], truth, whole)
+	}
 	if f.op != "leaf" && f.expr != nil && whole != nil && whole(f.expr) {
 		return [][]literal{{{f.expr, truth}}}
 	}
